@@ -120,6 +120,7 @@ type Frag struct {
 	Type    codec.Command
 	Ok      bool // for mset
 	Done    bool // is the current frag completed
+	Discard bool // the reply belongs to nobody and is dropped (ASKING sent by the proxy itself)
 }
 
 func (f *Frag) MsgId() uint64 {
